@@ -34,6 +34,7 @@ fn main() {
         "cache" => cachem::run(&opts),
         "conc" => conc::run(&opts),
         "race" => race::run(&opts),
+        "scan" => race::run_scan(&opts),
         "term" => term::run(&opts),
         "termchild" => term::termchild(&opts),
         "inflight" => inflight::run(&opts),
@@ -46,6 +47,7 @@ fn main() {
             0
         }
         "lag" => crash::run_lag(&opts),
+        "f1" => crash::run_f1(&opts),
         "racechild" => race::racechild(&opts),
         "seq" => seq::run(&opts),
         "tracegen" => crash::tracegen(&opts),
